@@ -2248,8 +2248,9 @@ class FnTr:
                 raise Untranslatable(f"{sp.lean}: the default of `{pn}` is `{ast.unparse(pos[pn]) if pn in pos else None}`, the spec says `{dv}`")
         self.warn_sites = sorted((n.lineno, n.col_offset) for n in ast.walk(fdef)
                                  if isinstance(n, ast.Call) and ast.unparse(n.func) == "warnings.warn")
-        self.hoist = not (sp.rec_group or sp.fuel and (f"self.{sp.func}(" in ast.unparse(fdef) or any(
-            isinstance(n, ast.Call) and ast.unparse(n.func) == sp.func for n in ast.walk(fdef))))
+        # (a bare-name call `f(...)` inside a METHOD `f` is the module-level function of that name, not the method: no recursion)
+        self.hoist = not (sp.rec_group or sp.fuel and (f"self.{sp.func}(" in ast.unparse(fdef) or (sp.cls is None and any(
+            isinstance(n, ast.Call) and ast.unparse(n.func) == sp.func for n in ast.walk(fdef)))))
         stmts = fdef.body
         if sp.seg_from is not None or sp.seg_to is not None:
             # a segment of the body: the statements before it compute the parameters, the statements after it consume the `out` variables
@@ -2285,8 +2286,8 @@ class FnTr:
         fuel = "(fuel : Nat) " if sp.fuel else ""
         dflt = "default"
         doc = (sp.doc or f"`{sp.file}::{(sp.cls + '.') if sp.cls else ''}{sp.func}`")
-        rec = sp.rec_group or sp.fuel and (f"self.{sp.func}(" in ast.unparse(fdef) or any(
-            isinstance(n, ast.Call) and ast.unparse(n.func) == sp.func for n in ast.walk(fdef)))
+        rec = sp.rec_group or sp.fuel and (f"self.{sp.func}(" in ast.unparse(fdef) or (sp.cls is None and any(
+            isinstance(n, ast.Call) and ast.unparse(n.func) == sp.func for n in ast.walk(fdef))))
         if sp.rec_group and not sp.fuel:
             raise Untranslatable(f"{sp.lean}: a member of a recursion group needs fuel")
         lines = [f"/-- variables of {doc} -/",
